@@ -59,4 +59,8 @@ theorem holds_send_loop_never_left_holding (s : ReplyChan.State) (h : ReplyChan.
   let r := Props.C20.reply_always_deliverable _ (by decide) s h i hw
   ⟨r.1, r.2.1⟩
 
+theorem holds_knock_loop_ends_with_listener (closedBeforeLoopRan : Bool) :
+    GrpcMux.knockLoopEnds Facts.grpcKnockLoop closedBeforeLoopRan = true :=
+  knock_loop_ends_with_listener _ (by decide) closedBeforeLoopRan
+
 end GoPlugin.Instance.C18
